@@ -4,7 +4,8 @@
 ops (one observation line each):
   feed <hex> | eagain | eof | err | items <i,i,..>     -> ok                       (i = hex | . | eof | err)
   recv <n>                                             -> data=<hex>|block|closed|exc:<T>  conn=<0|1> sent=<hex,..|->
-  send <hex data> <hex8 key> <accept>                  -> ret=<n> wire=<hex>
+  send <hex data> <hex8 key> <accept n | b | e>        -> ret=<n>|exc:<T> wire=<hex>   (b: raw send raises
+                                                          BlockingIOError, e: BrokenPipeError)
   reset                                                -> ok
 
 The monitors are written from RFC 6455 section 5.2 (via wire.ws_parse / wire.ws_frame), not from the model."""
@@ -27,7 +28,7 @@ class StubSock:
 
     def __init__(self):
         self.inq = collections.deque()
-        self.accept = None          # None: take everything (replies); int: what send() takes
+        self.accept = None          # None: take everything (replies); int: what send() takes; "b"/"e": send() raises
         self.sent = []
 
     def recv(self, n):
@@ -49,6 +50,10 @@ class StubSock:
         return out
 
     def send(self, data):
+        if self.accept == "b":
+            raise BlockingIOError(errno.EAGAIN, "would block")
+        if self.accept == "e":
+            raise BrokenPipeError(errno.EPIPE, "broken pipe")
         data = bytes(data)
         k = len(data) if self.accept is None else min(self.accept, len(data))
         self.sent.append(data[:k])
@@ -132,7 +137,7 @@ def run_real(case):
                 obs.append(f"{o} conn={int(bool(w.connected))} sent={','.join(hx(x) for x in sock.sent) if sock.sent else '-'}")
             elif op == "send":
                 shim.key = unhx(t[2])
-                sock.accept = int(t[3])
+                sock.accept = t[3] if t[3] in ("b", "e") else int(t[3])
                 sock.sent = []
                 try:
                     r = w.send(unhx(t[1]))
@@ -238,10 +243,26 @@ def gen_send_ops(rng, nmsgs, allow_big):
         left = len(wire.ws_frame(data, mask=key))
         first = True
         guard = 0
+        # scripted openings, among them: partial accept, would-block, accept all
+        x = rng.random()
+        trigger = (["part", "b", "all"] if x < 0.10 else ["b", "all"] if x < 0.15 else ["part", "e", "part", "b", "all"] if x < 0.18
+                   else ["b", "b", "part", "b"] if x < 0.21 else [])
+        if left <= 1:
+            trigger = []
         while left > 0:
             guard += 1
             r = rng.random()
-            if r < 0.2 and guard < 8:
+            if trigger:
+                a = trigger.pop(0)
+                if a == "all":
+                    a = left
+                elif a == "part":
+                    a = rng.randint(1, max(1, left - 1))
+            elif r < 0.10 and guard < 8:
+                a = "b"
+            elif r < 0.14 and guard < 8:
+                a = "e"
+            elif r < 0.28 and guard < 8:
                 a = 0
             elif r < 0.6 and guard < 12:
                 a = rng.randint(1, max(1, left - 1)) if rng.random() < 0.7 else rng.choice([1, 2, 3, 5, 6, 7, 8])
@@ -254,7 +275,8 @@ def gen_send_ops(rng, nmsgs, allow_big):
                 # a caller that does not keep the retry discipline
                 d = rbytes(rng, rng.choice([0, 1, n, n + 1, 5]))
             ops.append(f"send {hx(d)} {hx(k)} {a}")
-            left -= min(a, left)
+            if a not in ("b", "e"):
+                left -= min(a, left)
             first = False
         if rng.random() < 0.05:
             # abandon a frame half way: start one and do not finish it before the next message
@@ -487,9 +509,12 @@ class WsStream:
 
     @staticmethod
     def _monitor_send_run(run, base):
+        """RFC view of what send() put on the raw socket. A call whose raw send raised reports nothing written; the
+        caller retries with the same data. Which call's mask key a frame carries is not prescribed: any key (and, for
+        callers that break the retry discipline, any data) of the calls made for that frame is accepted."""
         hits = []
         W = b""
-        groups = []          # (data, key) of the calls that started a frame
+        groups = []          # per frame started: {"datas": [...], "keys": [...]} of the calls made for it
         complete_before = 0
         fresh = True         # the next call starts a new frame
         acked = b""          # data of the calls that returned non-zero
@@ -499,15 +524,29 @@ class WsStream:
                 continue
             data, key = unhx(t[1]), unhx(t[2])
             r, w = o.split(" ")
+            if fresh:
+                groups.append({"datas": [], "keys": []})
+                fresh = False
+            g = groups[-1]
+            g["datas"].append(data)
+            g["keys"].append(key)
+            gdata = g["datas"][0]
+            disciplined = all(d == gdata for d in g["datas"])
+            wbytes = unhx(w[5:])
+            if t[3] in ("b", "e"):
+                want = "exc:BlockingIOError" if t[3] == "b" else "exc:BrokenPipeError"
+                if r != want:
+                    hits.append((base + j, "send-exc", f"raw send raised ({t[3]}) but send() gave {r}"))
+                if wbytes:
+                    hits.append((base + j, "send-exc", "bytes written by a call whose raw send raised"))
+                if r.startswith("ret=") and int(r[4:]) != 0:
+                    acked += data
+                continue
             if r.startswith("exc:"):
                 hits.append((base + j, "send-exc", f"send raised {r[4:]}"))
                 continue
             ret = int(r[4:])
-            if fresh:
-                groups.append((data, key))
-            gdata = groups[-1][0]
-            disciplined = data == gdata
-            W += unhx(w[5:])
+            W += wbytes
             frames, rest = wire.ws_parse(W)
             done = len(frames) > complete_before and not rest
             if len(frames) > complete_before + 1 or (len(frames) > complete_before and rest):
@@ -530,10 +569,29 @@ class WsStream:
             if not (f["fin"] == 1 and f["opcode"] == 2 and f["masked"] == 1 and f["rsv"] == 0 and f["minimal"]):
                 hits.append((base, "send-frame", f"frame on the wire is not a minimal masked FIN binary frame: {f['fin']}/{f['opcode']}/{f['masked']}/{f['rsv']}/{f['minimal']}"))
                 break
-        exp = b"".join(wire.ws_frame(d, opcode=2, fin=1, mask=k) for d, k in groups)
-        if W != exp[:len(W)]:
-            hits.append((base, "send-wire", "wire bytes are not a prefix of the RFC encoding of the frames of the sends started"))
-        if groups and len(W) < len(exp) - len(wire.ws_frame(groups[-1][0], mask=groups[-1][1])):
+        # frame i on the wire is the RFC encoding of (a data, a key) of the calls made for frame i; the tail is a prefix of one
+        pos = 0
+        ok = len(frames) <= len(groups)
+        if ok:
+            for i, f in enumerate(frames):
+                g = groups[i]
+                cands = {wire.ws_frame(d, opcode=2, fin=1, mask=k) for d in set(g["datas"]) for k in set(g["keys"])}
+                m = next((c for c in cands if W[pos:pos + len(c)] == c), None)
+                if m is None:
+                    ok = False
+                    break
+                pos += len(m)
+        if ok and W[pos:] != rest:
+            ok = False
+        if ok and rest:
+            if len(frames) >= len(groups):
+                ok = False
+            else:
+                g = groups[len(frames)]
+                ok = any(wire.ws_frame(d, opcode=2, fin=1, mask=k)[:len(rest)] == rest for d in set(g["datas"]) for k in set(g["keys"]))
+        if not ok:
+            hits.append((base, "send-wire", "wire bytes are not complete RFC frames of the sends started (in order) plus a prefix of the next"))
+        if len(groups) > len(frames) + 1:
             hits.append((base, "send-wire", "a frame was started before the previous one was complete"))
         if b"".join(f["payload"] for f in frames) != acked:
             hits.append((base, "send-payload", "unmasked payloads on the wire differ from the data of the sends that returned non-zero"))
@@ -585,7 +643,7 @@ class WsStream:
                 if "sent=-" not in o:
                     f.add("reply")
             elif t[0] == "send":
-                f.add("send:ret0" if o.startswith("ret=0") else "send:ret")
+                f.add("send:exc" if o.startswith("exc:") else "send:ret0" if o.startswith("ret=0 ") else "send:ret")
                 n = len(unhx(t[1]))
                 if n in (125, 126, 65535, 65536):
                     f.add(f"sendlen:{n}")
